@@ -280,6 +280,26 @@ def run(src: Path, ex: Any) -> str:
                     v = (len(i_upd) == 1 and n_upd == 1 and i_close < i_upd[0]
                          and not any(isinstance(x, (ast.Return, ast.Raise, ast.Break, ast.Continue)) for st in body[i_close + 1:i_upd[0]] for x in ast.walk(st)))
     emit("h2StreamClosedAlwaysUpdates", v, "H2Protocol.stream_send(StreamClosed): after `_close_stream`, `if not self.closed: await self.send(Updated(idle=idle))` is an unconditional statement of the branch (not an elif / else of the shutdown GOAWAY)")
+    # … and the `idle` it reports (and on which the shutdown GOAWAY + close is decided) counts a stream that still has a send buffer
+    # as busy: a WebSocket over HTTP/2 whose application has closed it says `idle` while its close frame and END_STREAM may still
+    # be waiting for the send task or for flow-control credit (closing the connection then loses them)
+    v = None
+    if fn is not None:
+        for n in ast.walk(fn):
+            if isinstance(n, ast.If) and ast.unparse(n.test) == "isinstance(event, StreamClosed)":
+                idles = [st for st in n.body if isinstance(st, ast.Assign) and ast.unparse(st.targets[0]) == "idle"]
+                if len(idles) == 1:
+                    e = idles[0].value
+                    txt = ast.unparse(e)
+                    if isinstance(e, ast.Call) and ast.unparse(e.func) == "all" and len(e.args) == 1 and isinstance(e.args[0], ast.GeneratorExp):
+                        elt = e.args[0].elt
+                        conj = [ast.unparse(c) for c in (elt.values if isinstance(elt, ast.BoolOp) and isinstance(elt.op, ast.And) else [elt])]
+                        it = ast.unparse(e.args[0].generators[0].iter) if len(e.args[0].generators) == 1 else ""
+                        if it in ("self.streams.items()", "self.streams.values()") and "stream.idle" in conj:
+                            v = any(c.endswith(" not in self.stream_buffers") for c in conj)
+                    elif txt == "len(self.streams) == 0 or all((stream.idle for stream in self.streams.values()))":
+                        v = False
+    emit("h2IdleCountsBuffered", v, "H2Protocol.stream_send(StreamClosed): `idle = all(stream.idle and stream_id not in self.stream_buffers for … in self.streams.items())`")
     # H2Protocol.handle(Closed): the flag and the loop over EVERY registered stream are unconditional.  Closed is reported by
     # several parties (a failed write, the reader's end, the idle timer) and `_create_stream` does not look at `self.closed`:
     # a stream opened between two reports is told by the later one only if that one is not skipped
